@@ -15,7 +15,27 @@ from simkit import twin
 from vizier import pyvizier as vz
 
 DESIGNERS = ['random', 'quasi', 'sgrid', 'eagle', 'nsga2', 'cmaes']
-PERTURB = ['clock', 'py_random', 'np_random', 'jax_key', 'foreign_study', 'pythia_servicer', 'runner_reuse']
+PERTURB = ['clock', 'py_random', 'np_random', 'jax_key', 'foreign_study', 'pythia_servicer', 'runner_reuse',
+           'sibling_study']
+
+
+PROCESS_HISTORY = {'sibling_study', 'foreign_study', 'runner_reuse', 'pythia_servicer'}
+
+
+def _sibling(plan, seed):
+  """Before ours: a whole study of the SAME algorithm on a sibling problem (same parameter names and
+  types, other scale / feasible values), another seed, the same number of steps, overlapping trial ids."""
+  if plan['kind'] != 'designer':
+    return
+  prob = twin.problem(twin.SIBLING.get(plan['space'], plan['space']), plan.get('metrics', 1))
+  d = twin.make(plan['designer'], prob, seed + 13, small=True)
+  tid = 0
+  for count in plan['batches']:
+    trials = []
+    for s in d.suggest(count):
+      tid += 1
+      trials.append(twin.complete(s, tid, metrics=plan.get('metrics', 1)))
+    twin.update(d, trials)
 
 
 def _foreign(step):
@@ -57,6 +77,8 @@ def execute(plan, perturb, seed=None):
   with simclock.installed(clk, simclock.Entropy(31337 if perturb else 1)):
     if perturb:
       _perturb(kinds, 0, clk)
+      if 'sibling_study' in kinds:
+        _sibling(plan, seed)
     if plan['kind'] == 'designer':
       prob = twin.problem(plan['space'], plan.get('metrics', 1))
       d = twin.make(plan['designer'], prob, seed, small=True)
@@ -82,10 +104,21 @@ def execute(plan, perturb, seed=None):
           getattr(bbob, plan['function']), bbob.DefaultBBOBProblemStatement(dim))
       name = plan['designer']
 
-      def factory(problem, seed=None, name=name):
-        return twin.make(name, problem, seed, small=True)
+      if plan.get('factory_style') == 'kwargs':
+        # the protocol-shaped factory: (problem, **kwargs), forwarding the seed it is given
+        def factory(problem, **kwargs):
+          return twin.make(name, problem, kwargs.get('seed'), small=True)
+      else:
+        def factory(problem, seed=None, name=name):
+          return twin.make(name, problem, seed, small=True)
 
-      state_factory = benchmark_state.DesignerBenchmarkStateFactory(experimenter=exp, designer_factory=factory)
+      if plan.get('state_factory') == 'experimenter_designer':
+        state_factory = benchmark_state.ExperimenterDesignerBenchmarkStateFactory(
+            experimenter_factory=lambda: numpy_experimenter.NumpyExperimenter(
+                getattr(bbob, plan['function']), bbob.DefaultBBOBProblemStatement(dim)),
+            designer_factory=factory)
+      else:
+        state_factory = benchmark_state.DesignerBenchmarkStateFactory(experimenter=exp, designer_factory=factory)
       state = state_factory(seed=seed)
       if plan['protocol'] == 'generate_and_evaluate':
         subs = [benchmark_runner.GenerateAndEvaluate(plan['batch'])]
@@ -100,10 +133,14 @@ def execute(plan, perturb, seed=None):
         # another seeded study in this process
         other = state_factory(seed=seed + 77)
         benchmark_runner.BenchmarkRunner(benchmark_subroutines=subs, num_repeats=3).run(other)
-      for rep in range(plan['repeats']):
-        if perturb:
-          _perturb(kinds, rep + 1, clk)
-        benchmark_runner.BenchmarkRunner(benchmark_subroutines=subs, num_repeats=1).run(state)
+      if plan.get('runner_style') == 'repeats':
+        # one runner repeating the protocol by itself
+        benchmark_runner.BenchmarkRunner(benchmark_subroutines=subs, num_repeats=plan['repeats']).run(state)
+      else:
+        for rep in range(plan['repeats']):
+          if perturb:
+            _perturb(kinds, rep + 1, clk)
+          benchmark_runner.BenchmarkRunner(benchmark_subroutines=subs, num_repeats=1).run(state)
       for t in state.algorithm.supporter.trials:
         fm = None
         if t.final_measurement is not None:
@@ -127,7 +164,8 @@ class C14(runner.Check):
           'execution X runs undisturbed; execution Y of the same seed runs with the perturbations injected '
           'before and between steps (simulated-clock epoch / jumps / resolution, re-seeded and advanced global '
           'python and numpy RNGs, jax keys, other studies of other algorithms run in between, a PythiaServicer '
-          'instantiation, the benchmark protocol objects having driven another study before; a sample also in a fresh interpreter with another PYTHONHASHSEED); X and Y must '
+          'instantiation, the benchmark protocol objects having driven another study before, a whole study of the same '
+          'algorithm on a sibling problem (same parameter names / types, other scale and feasible values) run before; a sample also in a fresh interpreter with another PYTHONHASHSEED); X and Y must '
           'produce identical suggestions / trial sequences and a different seed must change them; designers: '
           'random, quasi-random, shuffled grid, eagle, NSGA-II, CMA-ES; protocols: GenerateAndEvaluate and '
           'GenerateSuggestions / FillActiveTrials + partial EvaluateActiveTrials on BBOB functions; distinct = hash of (designer, '
@@ -136,18 +174,18 @@ class C14(runner.Check):
       'GP bandit and GP-UCB-PE are NOT covered: equinox cannot be imported under the installed jax, so the claim is limited to the other six designers and the benchmark runner',
       'jax_enable_x64 is pinned to True at boot; a float32/float64 dependency on earlier PythiaServicer creation is therefore not explored',
   ]
-  runs = {'quick': 1200, 'thorough': 12000}
+  runs = {'quick': 900, 'thorough': 12000}
   budget_s = {'quick': 110, 'thorough': 1500}
-  chunk = 10
-  probes = ['perturb.clock', 'perturb.py_random', 'perturb.np_random', 'perturb.foreign_study', 'perturb.runner_reuse',
+  chunk = 1  # one pristine process per run: module-level state in designers is what C14 is about
+  probes = ['perturb.clock', 'perturb.py_random', 'perturb.np_random', 'perturb.foreign_study', 'perturb.runner_reuse', 'perturb.sibling_study',
             'perturb.fresh_process', 'probe.seed-changes-stream', 'probe.benchmark-protocol',
-            'probe.partial-evaluation']
+            'probe.partial-evaluation', 'probe.perturbed-run-in-own-process']
 
   def gen(self, rng, idx, tier):
     name = rng.choice(['random', 'quasi', 'sgrid', 'eagle', 'eagle', 'nsga2', 'nsga2'])
     if rng.random() < (0.03 if tier == 'quick' else 0.06):
       name = 'cmaes'
-    kinds = sorted(rng.sample(PERTURB, rng.choice([2, 3, 4, 7])))
+    kinds = sorted(rng.sample(PERTURB, rng.choice([2, 3, 4, 8])))
     # edge seeds on purpose: 0 is falsy, 2**31-1 / 2**32-1 are range limits
     seed = rng.randrange(1, 10**6) if rng.random() < 0.8 else rng.choice([0, 0, 0, 1, 2**31 - 1])
     # A fresh interpreter with another PYTHONHASHSEED is the only way to perturb set /
@@ -159,7 +197,10 @@ class C14(runner.Check):
     if rng.random() < 0.3 and name != 'sgrid':
       plan.update(kind='benchmark', dim=rng.choice([2, 3]), function=rng.choice(['Sphere', 'BuecheRastrigin', 'DifferentPowers', 'StepEllipsoidal', 'Schwefel']),
                   protocol=rng.choice(['generate_and_evaluate', 'suggest_then_partial', 'fill_then_partial']),
-                  batch=rng.choice([1, 2, 3, 5]), partial=rng.choice([1, 2]), repeats=rng.choice([3, 5, 8]))
+                  batch=rng.choice([1, 2, 3, 5]), partial=rng.choice([1, 2]), repeats=rng.choice([3, 5, 8]),
+                  state_factory=rng.choice(['designer', 'designer', 'experimenter_designer']),
+                  runner_style=rng.choice(['loop', 'loop', 'repeats']),
+                  factory_style=rng.choice(['explicit', 'explicit', 'kwargs']))
       if name == 'cmaes':
         plan['repeats'] = 3
     else:
@@ -184,8 +225,17 @@ class C14(runner.Check):
   def run(self, plan):
     res = runner.Result()
     name = plan['designer']
-    x = execute(plan, perturb=False)
-    y = execute(plan, perturb=True)
+    if set(plan['perturb']) & PROCESS_HISTORY:
+      # "what other studies ran before in the same process": the perturbed execution gets a process of
+      # its own (forked while this one is still pristine), or state left behind by X would mask it
+      status, y = runner.in_pristine_child(lambda: execute(plan, perturb=True))
+      if status != 'ok':
+        raise RuntimeError('perturbed execution failed in its child: ' + str(y)[-800:])
+      res.bump('probe.perturbed-run-in-own-process')
+      x = execute(plan, perturb=False)
+    else:
+      x = execute(plan, perturb=False)
+      y = execute(plan, perturb=True)
     for k in plan['perturb']:
       res.bump('perturb.' + k)
     if plan.get('kind') == 'benchmark':
@@ -193,6 +243,8 @@ class C14(runner.Check):
       if plan['protocol'] != 'generate_and_evaluate':
         res.bump('probe.partial-evaluation')
     sig = {'designer': name, 'kind': plan.get('kind')}
+    y = json.loads(json.dumps(y))
+    x = json.loads(json.dumps(x))
     if x != y:
       step = next((i for i, (a, b) in enumerate(zip(x, y)) if a != b), min(len(x), len(y)))
       res.violate('same-seed-runs-differ', f'{name} seed={plan["seed"]} perturbations={plan["perturb"]}: first difference at item {step}: {str(x[step])[:120] if step < len(x) else None} vs {str(y[step])[:120] if step < len(y) else None}', sig=sig)
